@@ -24,6 +24,7 @@ def run(ctx):
     panic_scope(ctx, "R-C13-panic", "rumqttd", ENTRIES, "C13", "commit log API")
     ctx.guarded("R-C13-shape", shape, ctx, prog)
     ctx.guarded("R-C13-guards", guards, ctx, prog)
+    ctx.guarded("R-C13-tags", tags, ctx, prog)
 
 
 def guards(ctx, prog):
@@ -34,7 +35,11 @@ def guards(ctx, prog):
     dom = dominators(rd)
 
     def cmp_switches(body, op_names, a_pred, b_pred):
-        """[(switch_bb, true_target, false_target)] for switches on `a OP b` with predicates on the operands' provenance"""
+        """[(switch_bb, holds_target, fails_target, op)] for switches deciding the relation `a OP b`
+        (OP in op_names, a/b selected by predicates on their provenance), whichever way the source
+        spells it: `a > b`, `b < a`, `!(a <= b)`, `!(b >= a)` all decide `a > b`."""
+        flip = {"Gt": "Lt", "Lt": "Gt", "Ge": "Le", "Le": "Ge", "Eq": "Eq", "Ne": "Ne"}
+        neg = {"Gt": "Le", "Le": "Gt", "Lt": "Ge", "Ge": "Lt", "Eq": "Ne", "Ne": "Eq"}
         out = []
         for bi, b in enumerate(body.blocks):
             t = b["t"]
@@ -42,13 +47,25 @@ def guards(ctx, prog):
                 continue
             l = op_local(t["on"])
             d = single_def(body, l) if l is not None else None
-            if d and d[2] == "assign" and d[3]["rv"]["k"] == "bin" and d[3]["rv"]["op"] in op_names:
-                sa = flatten_src(provenance(body, d[3]["rv"]["a"]))
-                sb = flatten_src(provenance(body, d[3]["rv"]["b"]))
+            if not (d and d[2] == "assign" and d[3]["rv"]["k"] == "bin" and d[3]["rv"]["op"] in flip):
+                continue
+            zero = [x for v, x in t["targets"] if v == 0]
+            if not zero:
+                continue
+            op = d[3]["rv"]["op"]
+            sa = flatten_src(provenance(body, d[3]["rv"]["a"]))
+            sb = flatten_src(provenance(body, d[3]["rv"]["b"]))
+            for want in op_names:
                 if a_pred(sa) and b_pred(sb):
-                    zero = [x for v, x in t["targets"] if v == 0]
-                    if zero:
-                        out.append((bi, t["otherwise"], zero[0], d[3]["rv"]["op"]))
+                    if op == want:
+                        out.append((bi, t["otherwise"], zero[0], want)); break
+                    if op == neg[want]:
+                        out.append((bi, zero[0], t["otherwise"], want)); break
+                if a_pred(sb) and b_pred(sa):
+                    if op == flip[want]:
+                        out.append((bi, t["otherwise"], zero[0], want)); break
+                    if op == neg[flip[want]]:
+                        out.append((bi, zero[0], t["otherwise"], want)); break
         return out
 
     def is_cursor0(ss):
@@ -69,7 +86,15 @@ def guards(ctx, prog):
         ctx.violation(rule, rd.id, "missing guard cursor.0 > tail", "segments[idx] is reachable for a cursor beyond the tail segment (index out of range → panic)", site=rd.fn_loc())
     # G2: cursor.0 < head → cursor rewritten to head, before the subtraction cursor.0 - head
     g2 = cmp_switches(rd, ("Lt",), is_cursor0, is_field("head"))
-    subs = [bi for bi, b in enumerate(rd.blocks) if b["t"]["k"] == "assert" and b["t"]["msg"].startswith("Overflow:Sub") and not b.get("cleanup")]
+    # subtraction sites (checked `SubWithOverflow` with overflow checks on, plain `Sub` otherwise), in block order
+    sub_stmts = {}
+    for bi, b in enumerate(rd.blocks):
+        if b.get("cleanup"):
+            continue
+        for st in b["s"]:
+            if "lhs" in st and st["rv"]["k"] == "bin" and st["rv"]["op"] in ("Sub", "SubWithOverflow") and bi not in sub_stmts:
+                sub_stmts[bi] = st["rv"]
+    subs = sorted(sub_stmts)
     if g2 and subs and all(g2[0][0] in dom.get(s, ()) for s in subs[:1]):
         # on the true edge (cursor.0 < head) every path to the subtraction assigns cursor
         tr = g2[0][1]
@@ -80,8 +105,7 @@ def guards(ctx, prog):
                         getattr(s, "fields", None) and s.fields[-1] == "head" for o in st["rv"]["ops"] for s in flatten_src(provenance(rd, o))):
                     assigns.add(bi)
         # ... and the value subtracted from is that (rewritten) cursor: one of its sources is self.head
-        sub_t = rd.blocks[subs[0]]["t"]
-        sub_src = flatten_src(provenance(rd, sub_t["ops"][0])) if sub_t.get("ops") else []
+        sub_src = flatten_src(provenance(rd, sub_stmts[subs[0]]["a"]))
         from_head = any(getattr(s, "fields", None) and s.fields[-1] == "head" for s in sub_src)
         if assigns and from_head and not (reachable(rd, (tr,), avoid_blocks=assigns) & set(subs[:1])):
             ctx.ok(rule, rd.id, "`cursor.0 < head` jumps the cursor to head before `cursor.0 - head`")
@@ -115,6 +139,60 @@ def guards(ctx, prog):
         ctx.ok(rule, sr.id, "data[idx..limit] is under `idx >= len()` false edge, with limit clamped by `limit >= len()`")
     else:
         ctx.violation(rule, sr.id, "missing bounds tests", "Segment::readv slices data[idx..limit] without the idx/limit >= len() tests", site=sr.fn_loc())
+
+
+def tags(ctx, prog):
+    """R-C13-tags: the offset every returned entry is tagged with is *absolute* — the range zipped
+    onto the entries starts at the caller's cursor offset, and the segment number is the caller's
+    segment; the continuation is absolute_offset + relative index"""
+    rule = "R-C13-tags"
+    sr = prog.one(r"^segments::segment::Segment::<T>::readv$")
+    ranges = []
+    for bi, b in enumerate(sr.blocks):
+        if b.get("cleanup"):
+            continue
+        for st in b["s"]:
+            if "lhs" in st and st["rv"]["k"] == "agg" and st["rv"].get("adt", "").endswith("ops::Range") and st["rv"]["ops"]:
+                ranges.append((bi, st))
+    # the range that is zipped with repeat(cursor.0) → offsets
+    zips = [(bb, t) for bb, t in sr.calls() if callee_path(t).endswith("Iterator::zip") and not sr.is_cleanup(bb)]
+    tagged = None
+    for bb, t in zips:
+        a0 = flatten_src(provenance(sr, t["args"][0]))
+        if any(s.kind == "call" and s.path.endswith("iter::repeat") for s in a0):
+            for s in flatten_src(provenance(sr, t["args"][1])):
+                if s.kind == "agg" and s.adt.endswith("ops::Range"):
+                    tagged = (bb, t, s)
+    if tagged is None:
+        ctx.violation(rule, sr.id, "no offset tagging", "Segment::readv no longer pairs the returned entries with (segment, offset) tags", site=sr.fn_loc())
+        return
+    bb, t, rng = tagged
+    start = flatten_src(provenance(rng.body, rng.rv["ops"][0]))
+    seg = []
+    for s in flatten_src(provenance(sr, t["args"][0])):
+        if s.kind == "call" and s.path.endswith("iter::repeat"):
+            seg = flatten_src(provenance(sr, s.term["args"][0]))
+    if start and all(s.kind == "param" and s.l == 2 and s.fields[-1:] == ["1"] for s in start):
+        ctx.ok(rule, sr.id, "entry tags start at the absolute cursor offset (cursor.1)", site=sr.loc(t.get("sp")))
+    else:
+        ctx.violation(rule, sr.id, "relative offset tags",
+                      "the offsets the returned entries are tagged with do not start at the caller's absolute cursor offset: in every segment but the first an entry's tag is not its own offset", site=sr.loc(t.get("sp")))
+    if seg and all(s.kind == "param" and s.l == 2 and s.fields[-1:] == ["0"] for s in seg):
+        ctx.ok(rule, sr.id, "entry tags carry the caller's segment number (cursor.0)")
+    else:
+        ctx.violation(rule, sr.id, "segment tag", "entries are tagged with a segment number other than the cursor's", site=sr.loc(t.get("sp")))
+    # continuation = absolute_offset + relative
+    okc = False
+    for b in sr.blocks:
+        for st in b["s"]:
+            if "lhs" in st and st["rv"]["k"] == "bin" and st["rv"]["op"] in ("Add", "AddWithOverflow"):
+                sa = flatten_src(provenance(sr, st["rv"]["a"]))
+                if any(getattr(s, "fields", None) and s.fields[-1] == "absolute_offset" for s in sa):
+                    okc = True
+    if okc:
+        ctx.ok(rule, sr.id, "continuation offset = absolute_offset + relative index")
+    else:
+        ctx.violation(rule, sr.id, "relative continuation", "Segment::readv's Next(..) continuation is no longer absolute_offset + relative index", site=sr.fn_loc())
 
 
 def is_field_any(name):
